@@ -7,6 +7,7 @@ of a source file): TEAL with a map == TEAL without; one map entry per TEAL line;
 line of an existing file; the R3 JSON decodes back to the same entries; annotated TEAL minus comments == plain TEAL."""
 import json
 import os
+import shutil
 import sys
 import tempfile
 
@@ -119,6 +120,7 @@ def main():
                     at = sm.annotated_teal
                     if at is None or strip_comments(at) != strip_comments(plain):
                         problems.append(dict(tag, what="annotated TEAL minus comments differs from the plain TEAL"))
+    shutil.rmtree(tmp, ignore_errors=True)
     print("C15SMOKE " + json.dumps(problems))
 
 
